@@ -637,6 +637,8 @@ def ladders(ctx, world, ev, m, forms):
                "ladder does not satisfy the double-and-add induction step (base case ok: %s, odd step: %s, even step: %s, recursion on (P, n>>1): %s)"
                % (base_ok, step_odd, step_even, rec_ok), site)
     ctx.ob("G6-present", "ladders", n_l >= 1, "%d double-and-add ladder(s) analysed" % n_l)
+    for (inst, ok, detail, site) in gm.formula_growth_obligations(world, ev):
+        ctx.ob("G6-size", inst, ok, detail, site)
 
 
 def check(ctx, world):
